@@ -68,6 +68,8 @@ func vpC20Formula(i int) Expression {
 		return vpId("$z")
 	case 15:
 		return vpBin(SK_Equals, vpId("$x"), &CallExpression{Expression: vpId("nofn"), Arguments: vpList()})
+	case 16:
+		return vpBin(SK_Equals, vpId("$x"), vpLit(SK_NumberLiteral, "9007199254740993"))
 	}
 	return vpBin(SK_Comma, vpBin(SK_Equals, vpId("$x"), vpNumLit(2)), vpId("$x"))
 }
@@ -140,6 +142,9 @@ func (m *vpRunnerModel) eval(i int) interface{} {
 		return m.get("$z")
 	case 15:
 		return vpFails{} // calling a missing name is an error; the state is unchanged
+	case 16:
+		m.set("$x", 9007199254740993) // a number that does not survive binary floating point
+		return 9007199254740993
 	}
 	m.set("$x", 2)
 	return 2
@@ -185,7 +190,7 @@ func VP_C20_runner() {
 			r.SetThisValue(k, v)
 			m.set(k, v)
 		case 2: // evaluate a formula
-			fi := vpChoice("f", 16)
+			fi := vpChoice("f", 17)
 			got, err := r.resolve(ctx, vpC20Formula(fi))
 			want := m.eval(fi)
 			if _, skip := want.(vpSkip); skip {
